@@ -1,6 +1,7 @@
 (* C10 - Reported network indicators are well-formed and normalised.  Statements pinned by harness/mkprop.py from Proofs/IpProofs.v, Proofs/PercentProofs.v, Proofs/NetworkProofs.v (tables are universally quantified: the statements hold for the TLD / false-positive tables regenerated from the source). *)
 From MD Require Import Lib.Base Model.Node Model.Codec.Percent Model.Dec.Ip Model.Dec.ReLib Model.Dec.UrlSplit Model.Dec.Network.
 From MD Require Import Proofs.IpProofs Proofs.PercentProofs Proofs.UrlSplitProofs Proofs.NetworkProofs.
+From MD Require Import Regex.LocalityProofs Proofs.RoundTrip Proofs.RoundTrip2 Proofs.RoundTrip3 Proofs.RoundTrip4 Proofs.RoundTrip5 Proofs.RoundTrip6.
 
 (* the rendered address is a canonical dotted quad *)
 Theorem C10_ip_canonical : forall n : Z, 0 <= n < 2 ^ 32 -> canonical_quad (ipv4_compressed n) = true.
@@ -73,6 +74,15 @@ Print Assumptions C10_percent_idempotent.
 Theorem C10_find_urls_never_raises : forall (tlds : list bytes) (data : bytes) (ms : list Backtrack.mtch), ms_ok data ms -> exists out : list node, find_urls_post tlds data ms = Ok out.
 Proof. exact find_urls_post_never_raises. Qed.
 Print Assumptions C10_find_urls_never_raises.
+
+(* END TO END: a URL without escapes / dot segments is reported with the text it covers as value and no label *)
+Theorem C10_url_reported_verbatim : forall (pre : list N) (scheme : bytes) (labels : list bytes) (tld path suf : bytes), url_scheme_ok scheme -> labels_ok labels = true -> tld_ok tld = true -> mem (upper tld) Tables.TOP_LEVEL_DOMAINS = true -> let host := dotted labels ++ tld in (URL_HOST_MIN <= Datatypes.length host <= URL_HOST_MAX)%nat -> url_path_ok path = true -> url_stop suf = true -> let form := url_form scheme host path in neutral Regexes.RE_network_URL_RE pre = true -> is_printable pre = true -> (Datatypes.length form + Datatypes.length (take_trail suf) + 100 <= Backtrack.default_fuel)%nat -> let data := pre ++ form ++ suf in find_urls Tables.TOP_LEVEL_DOMAINS data = Hang \/ (exists rest : list node, find_urls Tables.TOP_LEVEL_DOMAINS data = Ok (Node URL_TYPE form [] (blen pre) (blen pre + blen form) (url_simple_kids scheme host path) :: rest) /\ Forall (fun nd : node => blen pre + blen form <= n_st nd) rest).
+Proof. exact find_urls_roundtrip_simple_table. Qed.
+Print Assumptions C10_url_reported_verbatim.
+
+Theorem C10_domain_reported_verbatim : forall (pre : bytes) (labels : list bytes) (tld suf : bytes), labels_ok labels = true -> tld_ok tld = true -> mem (upper tld) Tables.TOP_LEVEL_DOMAINS = true -> let form := domain_form labels tld in 7 <= blen form -> domain_fp_b Tables.root_fpos Tables.tld_fpos form = false -> dom_pre_ok pre = true -> dom_stop suf = true -> (Datatypes.length pre + 2 * Datatypes.length form + Datatypes.length suf + 64 <= Backtrack.default_fuel)%nat -> let data := pre ++ form ++ suf in find_domains Tables.TOP_LEVEL_DOMAINS Tables.root_fpos Tables.tld_fpos data = Hang \/ (exists rest : list node, find_domains Tables.TOP_LEVEL_DOMAINS Tables.root_fpos Tables.tld_fpos data = Ok (Node (s2b "network.domain") form [] (blen pre) (blen pre + blen form) [] :: rest) /\ Forall (fun nd : node => blen pre + blen form <= n_st nd) rest).
+Proof. exact find_domains_roundtrip_table. Qed.
+Print Assumptions C10_domain_reported_verbatim.
 
 Example C10_example :
   parse_ip (L"0x7f.1") = Ok (L"127.0.0.1", L"ip_obfuscation", 6)
